@@ -2,9 +2,10 @@
 # save_mut.sh <id> <name> <description> [checks...] — store the mutation of /tmp/mut_<id> under seeded/<id>/<name>/
 id=$1; name=$2; desc=$3; shift 3
 d=/verif/seeded/$id/$name; mkdir -p $d/demo
-git -C /tmp/mut_$id diff -- src > $d/patch.diff
-cp -r /tmp/mut_$id/demo/. $d/demo/ 2>/dev/null
-for f in $(git -C /tmp/mut_$id status --porcelain | grep '^??' | awk '{print $2}' | grep -v '^target\|^demo'); do mkdir -p $d/demo/$(dirname $f); cp -r /tmp/mut_$id/$f $d/demo/$f; done
+W=${MUTROOT:-/tmp/mut}_$id
+git -C $W diff -- src > $d/patch.diff
+cp -r $W/demo/. $d/demo/ 2>/dev/null
+for f in $(git -C $W status --porcelain | grep '^??' | awk '{print $2}' | grep -v '^target\|^demo'); do mkdir -p $d/demo/$(dirname $f); cp -r $W/$f $d/demo/$f; done
 python3 - "$id" "$name" "$desc" "$@" <<'PY'
 import json,sys
 id,name,desc=sys.argv[1:4]; checks=sys.argv[4:] or [id]
